@@ -47,5 +47,67 @@ def error_path_repeated_name():
     return True
 
 
+def _c_compiles(text, codec):
+    """generate C for `text` and compile it with gcc -std=c99 -> True/False (None: the generator refused)."""
+    import os
+    import tempfile
+    import shutil
+    import subprocess
+    core.setup_path()
+    import asn1tools
+    from asn1tools.source import c as capi
+    spec = asn1tools.compile_string(text, codec)
+    try:
+        header, source, _, _ = capi.generate(spec, codec, 'ns', 'gen.h', 'gen.c', 'fuzz.c')
+    except asn1tools.Error:
+        return None
+    d = tempfile.mkdtemp(prefix='vf-probe-')
+    try:
+        with open(os.path.join(d, 'gen.h'), 'w') as f:
+            f.write(header)
+        with open(os.path.join(d, 'gen.c'), 'w') as f:
+            f.write(source)
+        rc = subprocess.run(['gcc', '-std=c99', '-c', 'gen.c', '-o', 'gen.o'], cwd=d, stdout=subprocess.PIPE,
+                            stderr=subprocess.PIPE, timeout=120).returncode
+        return rc == 0
+    finally:
+        shutil.rmtree(d, ignore_errors=True)
+
+
+def oer_c_addition_length_code():
+    """OER C: the code that computes the length of an extension addition is only right for primitive inline types."""
+    texts = ['M DEFINITIONS AUTOMATIC TAGS ::= BEGIN E ::= ENUMERATED { a, b } S ::= SEQUENCE { a BOOLEAN, ..., e E } END',
+             'M DEFINITIONS AUTOMATIC TAGS ::= BEGIN S ::= SEQUENCE { a BOOLEAN, ..., l SEQUENCE (SIZE (0..2)) OF OCTET STRING (SIZE (0..3)) } END']
+    return any(_c_compiles(t, 'oer') is False for t in texts)
+
+
+def oer_c_empty_marker_not_skipped():
+    """OER C generated for SEQUENCE { a BOOLEAN, ... } must consume 80 ff 02 07 80 01 05 (a newer version's addition) completely."""
+    import os
+    import tempfile
+    import shutil
+    import subprocess
+    core.setup_path()
+    import asn1tools
+    from asn1tools.source import c as capi
+    spec = asn1tools.compile_string('M DEFINITIONS AUTOMATIC TAGS ::= BEGIN S ::= SEQUENCE { a BOOLEAN, ... } END', 'oer')
+    header, source, _, _ = capi.generate(spec, 'oer', 'ns', 'gen.h', 'gen.c', 'fuzz.c')
+    d = tempfile.mkdtemp(prefix='vf-probe-')
+    try:
+        for n, t in (('gen.h', header), ('gen.c', source),
+                     ('main.c', '#include <stdio.h>\n#include "gen.h"\nint main(void) { struct ns_m_s_t s; '
+                                'const uint8_t in[] = {0x80, 0xff, 0x02, 0x07, 0x80, 0x01, 0x05}; '
+                                'printf("%ld\\n", (long)ns_m_s_decode(&s, in, sizeof(in))); return 0; }\n')):
+            with open(os.path.join(d, n), 'w') as f:
+                f.write(t)
+        if subprocess.run(['gcc', '-std=c99', 'gen.c', 'main.c', '-o', 'p'], cwd=d, stdout=subprocess.PIPE,
+                          stderr=subprocess.PIPE, timeout=120).returncode != 0:
+            return True
+        out = subprocess.run(['./p'], cwd=d, stdout=subprocess.PIPE, timeout=20).stdout.decode().strip()
+        return out != '7'
+    finally:
+        shutil.rmtree(d, ignore_errors=True)
+
+
 if __name__ == '__main__':
     sys.exit(1 if globals()[sys.argv[1]]() else 0)
